@@ -34,6 +34,7 @@ def contexts(sep, c):
         "S4": (["%s %sc" % (kv, c)], 1, 1, "_none_", None),
         "S5": ([kv, " w"], 1, 1, "_none_", None),
         "S7": (["[g]", kv], 1, 1, "g", None),
+        "SJ2": ([kv, "k%sw" % sep], 2, 1, "_none_", None),
     }
 
 
@@ -50,12 +51,16 @@ STATEMENTS = {
     "K_HEADER": "C02: a [section] header adds no key, records the trimmed name; later keys belong to it",
     "K_CONT": "C02/C17: a continuation line appends newline + its text to the previous value and advances "
               "the entry's line number",
+    "K_JOIN": "C15: with JOIN_SAME_ENTRIES a further definition of a key appends its value as a new line to the first "
+              "definition's value, an empty definition resets it",
+    "K_PYCONT": "C15: with PYTHON_STYLE every indented line continues the previous value with its indentation removed even if it "
+                "contains the delimiter; comment characters stay part of the value",
     "K_BAD": "C13: malformed header / missing delimiter gives the specific code, the right file and the "
              "1-based line number",
 }
 PROPS = {
     "K_ANY": ["C04"], "K_COMMENT": ["C05", "C04"], "K_BLANK": ["C02", "C05"], "K_ENTRY": ["C02", "C17", "C07"],
-    "K_HEADER": ["C02"], "K_CONT": ["C02", "C17"], "K_BAD": ["C13"],
+    "K_HEADER": ["C02"], "K_CONT": ["C02", "C17"], "K_BAD": ["C13"], "K_PYCONT": ["C15"], "K_JOIN": ["C15"],
 }
 
 
@@ -85,9 +90,12 @@ def mk(kind, dname, cname, ctxname, n, follow, tiers, python=0, join=0, props=No
     return Job(name, props or PROPS[kind], "harness/parser.c",
                sources=["lib/getfilecontents.c", "lib/helpers.c"], stubs=["stubs/stdio_real.c"],
                contracts=["contracts/readfile.h"], unwind=n + 4, tier="T2",
+               post_unwindset=({"join_same_entries@1": 5, "join_same_entries@2": 5, "join_same_entries@3": n + 2,
+                                "join_same_entries@4": n + 2} if join else None),
                bounds="line under test <= %d bytes (every byte value); context %s = %r%s; delimiters %r comments %r"
                       % (n, ctxname, lines, " + follow-up entry" if follow else "", dlit, clit),
-               model="M-real", defines=defs, timeout=1500, mem_gb=(8 if kind == "K_CONT" else 3), tiers=tiers, replay="parser",
+               object_bits=(10 if join else None),
+               model="M-real", defines=defs, timeout=1500, mem_gb=(12 if join else 8 if kind == "K_CONT" else 3), tiers=tiers, replay="parser",
                functions=["read_file", "store", "check_delim", "setGroupList", "getFromGroupList"],
                trusted=["fopen/getline/fclose hand out the scenario's lines (stubs/stdio_real.c); "
                         "asprintf/snprintf/strndup byte-level models; __attribute__((cleanup)) on org_buf is "
@@ -126,6 +134,13 @@ def register(J):
     for d, c in (("eq", "hash"), ("sp", "hash"), ("coloneq", "semi"), ("sptab", "hash")):
         for ctx in ("S1", "S5", "S7"):
             J.append(mk("K_CONT", d, c, ctx, 6, True, Q if (d == "eq" or ctx == "S1") else T))
+    # C15: PYTHON_STYLE
+    for d, c in (("eq", "hash"), ("sp", "hash"), ("coloneq", "semi")):
+        for ctx in ("S1", "S5", "S7"):
+            J.append(mk("K_PYCONT", d, c, ctx, 7, True, Q if (d == "eq" and ctx in ("S1", "S5")) or (d == "sp" and ctx == "S1") else T, python=1))
+    for d, c in (("eq", "hash"), ("sp", "hash")):
+        J.append(mk("K_ENTRY", d, c, "S1", 8, True, Q if d == "eq" else T, python=1, props=["C15", "C02"]))
+    J.append(mk("K_COMMENT", "eq", "hash", "S1", 8, True, T, python=1))
     # C13: malformed lines
     for d, c in (("eq", "hash"), ("coloneq", "semi"), ("sp", "hash"), ("speq", "hashsemi")):
         for ctx in ("S0", "S1", "S3", "S5", "S7"):
